@@ -889,7 +889,7 @@ func parentMain(a lib.Args, cfg *config) {
 		}
 		if g, ok := groups[k]; ok {
 			g.Count++
-			if len(f.Input) < len(g.Input) && (f.Standalone || !g.Standalone) {
+			if (f.Standalone && !g.Standalone) || (len(f.Input) < len(g.Input) && (f.Standalone || !g.Standalone)) {
 				cnt := g.Count
 				*g = f
 				g.Count = cnt
@@ -942,6 +942,7 @@ func parentMain(a lib.Args, cfg *config) {
 				to := inputTimeout
 				if f.Class == ObsPanic {
 					shrink(cfg, f, to, 60)
+					f.Standalone = false
 					for _, e := range entriesFor(f.Stream) {
 						r := probe(cfg, []string{f.Minimal}, e, to, f.Stream, true)
 						f.Entries[entryNames[e]] = r[0].Class
